@@ -425,3 +425,72 @@ Example C13_example_safe_reachable_adversarial :
   | None => False
   end.
 Proof. vm_compute. first [ reflexivity | repeat split; try reflexivity; repeat constructor; cbn; intuition discriminate ]. Qed.
+
+(* ------------------------------------------------------------------------
+   get_disjoint_mut under an OPERAND-DETERMINED == that is no equivalence
+   (Proofs/PureEqMore.v; [Related2 E ck cq R]: all four comparison callbacks
+   answer one arbitrary relation R on classes -- stored R needle in the scans,
+   needle R needle in the overlap assertion, needle R stored in the pair-major
+   scan of get_disjoint_unchecked_mut).  No aliasing whatever R is, and the
+   COMPLETE account of when the call panics: the overlap assertion, or -- only
+   possible when == is unlawful -- more stored keys related to some needle than
+   there are needles (the bounds-checked push onto the scratch stack; seeded
+   change C17g turns exactly this panic into an unchecked write).
+   ------------------------------------------------------------------------ *)
+Require Import Proofs.PureEq Proofs.PureEqMore.
+
+Theorem C13_disjoint_any_relation :
+  forall (K V Q T : Type) (E : env K V Q T) (ck : K -> N) (cq : Q -> N) (R : N -> N -> bool)
+         (HR2 : Related2 E ck cq R) (ks : list Q) (w : world K V T),
+    WF (self w) ->
+    wp (get_disjoint_mut E ks)
+       (fun (r : list (option nat)) (w' : world K V T) =>
+          (self w' = self w /\ length r = length ks /\
+           (forall j i, nth_error r j = Some (Some i) -> i < len (self w)) /\
+           (forall j1 j2 i, nth_error r j1 = Some (Some i) -> nth_error r j2 = Some (Some i) -> j1 = j2)) /\
+          (stable w w' /\ overlaps_rel cq R ks = false /\
+           overflow_rel ck cq R (Spec.elems (self w)) ks = false /\
+           r = disjoint_out ck cq R (Spec.elems (self w)) ks))
+       (fun w' : world K V T =>
+          self w' = self w /\
+          (self w' = self w /\ log w' = log w /\
+           (overlaps_rel cq R ks = true \/
+            (overlaps_rel cq R ks = false /\ overflow_rel ck cq R (Spec.elems (self w)) ks = true)))) w.
+Proof. exact (fun K V Q T E ck cq R HR2 => disjoint_result_rel E ck cq R HR2). Qed.
+Print Assumptions C13_disjoint_any_relation.
+
+(* with two or more needles each answer is a slot whose key the needle is related to, NEEDLE ON THE LEFT, and the
+   slot goes to the first such needle *)
+Theorem C13_disjoint_position_any_relation :
+  forall (K V Q T : Type) (E : env K V Q T) (ck : K -> N) (cq : Q -> N) (R : N -> N -> bool)
+         (HR2 : Related2 E ck cq R) (ks : list Q) (w : world K V T),
+    WF (self w) -> 2 <= length ks ->
+    wp (get_disjoint_mut E ks)
+       (fun (r : list (option nat)) (_ : world K V T) =>
+          forall j i, nth_error r j = Some (Some i) ->
+            exists q p, nth_error ks j = Some q /\ nth_error (Spec.elems (self w)) i = Some p /\
+                        R (cq q) (ck (fst p)) = true /\
+                        (forall j' q', j' < j -> nth_error ks j' = Some q' -> R (cq q') (ck (fst p)) = false))
+       (fun _ : world K V T => True) w.
+Proof. exact (fun K V Q T E ck cq R HR2 => disjoint_position_rel E ck cq R HR2). Qed.
+Print Assumptions C13_disjoint_position_any_relation.
+
+(* non-vacuity: the interpreter's environment under the fifth kind of script is such an environment (R = "<=") ... *)
+Theorem C13_env_related2 :
+  forall sc : script, asym sc = true -> sc_fk sc = 0%N -> Related2 (env_map sc) kcls qcls N.leb.
+Proof. exact env_map_related2. Qed.
+Print Assumptions C13_env_related2.
+
+(* ... and the second kind of panic exists there: needles 5 and 3 do not overlap (5 <= 3 is false), the three
+   stored keys 10, 11, 12 are all related to the needle 5, the call panics and leaves the map as it was *)
+Theorem C13_example_more_hits_than_needles :
+  let w := w_of [(mk 1 10, v0); (mk 2 11, v0); (mk 3 12, v0)] in
+  asym asym_sc = true /\ sc_fk asym_sc = 0%N /\
+  overlaps_rel qcls N.leb [QCls 5; QCls 3] = false /\
+  overflow_rel kcls qcls N.leb (Spec.elems (self w)) [QCls 5; QCls 3] = true /\
+  match get_disjoint_mut (env_map asym_sc) [QCls 5; QCls 3] w with
+  | Panic w' => self w' = self w
+  | _ => False
+  end.
+Proof. exact disjoint_overflow_panics. Qed.
+Print Assumptions C13_example_more_hits_than_needles.
